@@ -1,5 +1,5 @@
 (* Lemmas about the text primitives of Lib/C16_Text.v. *)
-From Coq Require Import DecimalPos.
+From Coq Require Import DecimalPos DecimalN.
 From Boltons Require Import Lib.Prelude Lib.C16_Text.
 Open Scope N_scope.
 
@@ -272,4 +272,16 @@ Proof.
   unfold dec. destruct n as [|p]; [cbn; discriminate|].
   cbn [N.to_uint]. pose proof (Unsigned.to_uint_nonnil p) as H.
   destruct (Pos.to_uint p); cbn [uint_codes]; try discriminate. contradiction.
+Qed.
+
+Lemma uint_codes_inj u v : uint_codes u = uint_codes v -> u = v.
+Proof.
+  revert v. induction u; intros v H; destruct v; cbn [uint_codes] in H; try discriminate; try reflexivity;
+    injection H as H; f_equal; apply IHu; exact H.
+Qed.
+
+Lemma dec_inj a b : dec a = dec b -> a = b.
+Proof.
+  unfold dec. intro H. apply uint_codes_inj in H.
+  rewrite <- (DecimalN.Unsigned.of_to a), <- (DecimalN.Unsigned.of_to b), H. reflexivity.
 Qed.
